@@ -1015,6 +1015,11 @@ func (m *v07Model) step(e v07Ev) string {
 		}
 		if in == nil {
 			in = m.newInst(sid, e.at)
+			if f != nil && !f.done && f.msg.sid == sid && f.inst != nil && f.inst.finished {
+				// the session was closed after the datagram was handed over and before it was looked at:
+				// the datagram starts a fresh session
+				f.inst = in
+			}
 		}
 		if !e.ok {
 			in.fault = true
@@ -1620,29 +1625,27 @@ func v07Execute(cfg v07Cfg, ops []v07Op) (res *v07Result, h *v07H, abandon bool)
 		h.mu.Unlock()
 		close(h.lostCh)
 	}
-	for round := 0; round < 8; round++ {
+	// everything parked is released ONE AT A TIME with a quiescent point in between: releasing the
+	// sweeper and the receive loop together would let them race for real (outside the harness's control)
+	for round := 0; round < 256; round++ {
 		synctest.Wait()
 		h.mu.Lock()
-		var rel []*v07Parked
-		if h.feederParked != nil {
-			rel = append(rel, h.feederParked)
-			h.feederParked = nil
+		var p *v07Parked
+		switch {
+		case h.logParked != nil:
+			p, h.logParked = h.logParked, nil
+		case h.feederParked != nil:
+			p, h.feederParked = h.feederParked, nil
+		case len(h.parkedSends) > 0:
+			p, h.parkedSends = h.parkedSends[0], h.parkedSends[1:]
 		}
-		if h.logParked != nil {
-			rel = append(rel, h.logParked)
-			h.logParked = nil
-		}
-		rel = append(rel, h.parkedSends...)
-		h.parkedSends = nil
 		h.logArm, h.feederArm = map[uint32]bool{}, 0
 		h.parkSendArmed = map[uint32]bool{}
 		h.mu.Unlock()
-		if len(rel) == 0 {
+		if p == nil {
 			break
 		}
-		for _, p := range rel {
-			p.ch <- nil // a released SendMessage then fails with "connection lost"
-		}
+		p.ch <- nil // a released SendMessage then fails with "connection lost"
 	}
 	synctest.Wait()
 	returned := false
